@@ -333,7 +333,7 @@ def run(ctx, prop):
         log("BUILD FAILED (harness raftsim):\n" + out[-3000:])
         raise SystemExit(2)
     vlib.regen_consts("Raft", "raftsim")
-    proofs_ok, info = ctx.check_proofs(make_targets=["Raft/Proofs.vo", "Raft/ProofsLog.vo", "Raft/ProofsStore.vo", "Raft/ProofsCore.vo", "Properties/%s.vo" % prop],
+    proofs_ok, info = ctx.check_proofs(make_targets=["Raft/Proofs.vo", "Raft/ProofsLog.vo", "Raft/ProofsStore.vo", "Raft/ProofsCore.vo", "Raft/ProofsRocks.vo", "Properties/%s.vo" % prop],
                                        gate_paths=["Raft/", "RaftAbs/", "Common", "Properties/%s" % prop])
     mok, mout, _ = vlib.model_build("Raft")
     if not mok:
